@@ -342,6 +342,12 @@ func run(ctx *common.Ctx) error {
 	fail := func(canon, detail string, c interface{}) { res.Fail(canon, detail, c) }
 
 	// checkGeneric: oracle (b) on one input; returns the response (nil if crashed)
+	dataOf := func(data []byte) []byte {
+		if len(data) > 1<<20 {
+			return nil
+		}
+		return data
+	}
 	checkGeneric := func(name string, data []byte, full bool) (*response, error) {
 		ctx.Current("INPUT "+name+" "+short(data), map[string]interface{}{"name": name, "len": len(data)})
 		res.Evaluations++
@@ -350,23 +356,23 @@ func run(ctx *common.Ctx) error {
 			return nil, err
 		}
 		if out.crashed {
-			fail("CRASH "+name, "the process running imap.NewParsedMessage/rfc822.Parse died: "+out.detail, map[string]interface{}{"name": name, "input": short(data), "len": len(data)})
+			fail("CRASH "+name, "the process running imap.NewParsedMessage/rfc822.Parse died: "+out.detail, map[string]interface{}{"name": name, "input": short(data), "len": len(data), "data": dataOf(data)})
 			return nil, nil
 		}
 		if out.timeout {
-			fail("TIMEOUT "+name, out.detail, map[string]interface{}{"name": name, "input": short(data), "len": len(data)})
+			fail("TIMEOUT "+name, out.detail, map[string]interface{}{"name": name, "input": short(data), "len": len(data), "data": dataOf(data)})
 			return nil, nil
 		}
 		resp := out.resp
 		if resp.Err == "" {
 			for i, w := range []string{"BODY", "BODYSTRUCTURE", "ENVELOPE"} {
 				if !resp.Wf[i] {
-					fail("MALFORMED "+w+" "+name, "text not accepted by wf_plist", map[string]interface{}{"name": name, "input": short(data), "body": short(resp.Body), "structure": short(resp.Structure), "envelope": short(resp.Envelope)})
+					fail("MALFORMED "+w+" "+name, "text not accepted by wf_plist", map[string]interface{}{"name": name, "input": short(data), "data": dataOf(data), "body": short(resp.Body), "structure": short(resp.Structure), "envelope": short(resp.Envelope)})
 				}
 			}
 		}
 		if resp.Nested != "" {
-			fail("NOT-NESTED "+name, resp.Nested, map[string]interface{}{"name": name, "input": short(data)})
+			fail("NOT-NESTED "+name, resp.Nested, map[string]interface{}{"name": name, "input": short(data), "data": dataOf(data)})
 		}
 		return resp, nil
 	}
@@ -403,6 +409,52 @@ func run(ctx *common.Ctx) error {
 				}
 			}
 		}
+	}
+
+	// ----- --replay FILE: only that input -----
+	if ctx.Replay != "" {
+		var rf struct {
+			Case struct {
+				Probe *nestProbe    `json:"probe"`
+				Tree  *mimegen.Node `json:"tree"`
+				Msg   []byte        `json:"msg"`
+				Data  []byte        `json:"data"`
+				Name  string        `json:"name"`
+			} `json:"case"`
+		}
+		b, err := os.ReadFile(ctx.Replay)
+		if err != nil {
+			return err
+		}
+		if err := json.Unmarshal(b, &rf); err != nil {
+			return err
+		}
+		switch {
+		case rf.Case.Probe != nil:
+			p := *rf.Case.Probe
+			data := hdrMsg(p.Header + ": " + p.value())
+			if p.Header != "From" {
+				data = hdrMsg("From: a@b\r\n" + p.Header + ": " + p.value())
+			}
+			if _, err := checkGeneric(p.canon(), data, false); err != nil {
+				return err
+			}
+		case rf.Case.Tree != nil:
+			resp, err := checkGeneric("tree "+mimegen.Shape(rf.Case.Tree), rf.Case.Msg, true)
+			if err != nil {
+				return err
+			}
+			if resp != nil {
+				if v := structureOracle(rf.Case.Tree, rf.Case.Msg, resp); v != "" {
+					fail("STRUCTURE "+mimegen.Shape(rf.Case.Tree)+" :: "+v, v, map[string]interface{}{"tree": rf.Case.Tree, "msg": rf.Case.Msg})
+				}
+			}
+		default:
+			if _, err := checkGeneric(rf.Case.Name, rf.Case.Data, false); err != nil {
+				return err
+			}
+		}
+		return common.WriteCases(ctx.Out, "Run.RunC12", "case", nil, "")
 	}
 
 	// ----- (b1) fixed adversarial corpus -----
@@ -535,7 +587,7 @@ func run(ctx *common.Ctx) error {
 			if !seenStructFail[canon] {
 				seenStructFail[canon] = true
 				fail(canon, "the structure/envelope reported for a well-formed message is not the tree it was built from: "+v,
-					map[string]interface{}{"shape": mimegen.Shape(small), "message": string(m), "first-seen-shape": shape, "first-seen-message": short(msg)})
+					map[string]interface{}{"shape": mimegen.Shape(small), "message": string(m), "tree": small, "msg": m, "first-seen-shape": shape, "first-seen-message": short(msg)})
 			}
 			continue // not compared with the model: the oracle failure is the finding
 		}
